@@ -25,6 +25,8 @@ func checkC15(c *Ctx) {
 	c15RecoverReported(c)
 	c15Known(c)
 	c15DiagsKept(c)
+	c.Rule("R9 bounded: every slice of the fixed-size padding buffer in hclwrite.Tokens.WriteTo has an upper bound that is clamped to the buffer's length (a comparison with len(buffer) on every path): the serialiser behind Format and File.Bytes cannot panic on a token that is preceded by many spaces")
+	paddingBounded(c, "bounded")
 	c.NotCovered("index-out-of-range / nil dereference / failed type assertion on arbitrary damaged input (value reasoning)")
 	c.NotCovered("in-bounds source ranges of diagnostics")
 	c.NotCovered("progress of byte-level scanners (Ragel machines, json scanner): arithmetic facts")
